@@ -211,6 +211,21 @@ def sforests_upto(rows, n):
         yield from sforests(rows, 1, k)
 
 
+def count_sforests(rows, n):
+    """number of forests sforests(rows, 1, n) yields, by an independent recurrence (no enumeration)"""
+    import functools
+
+    @functools.lru_cache(None)
+    def f(level, n, start):
+        if n == 0:
+            return 1
+        rs = rows.get(level)
+        if not rs:
+            return 0
+        return sum(f(level + 1, k - 1, 0) * f(level, n - k, i + 1) for i in range(start, len(rs)) for k in range(1, n + 1))
+    return f(1, n, 0)
+
+
 def is_sorted(forest, rows, level=1):
     idx = [rows[level].index(r) for r, _ in forest]
     return idx == sorted(idx) and all(is_sorted(c, rows, level + 1) for _, c in forest)
@@ -322,6 +337,7 @@ def run_tree(block, ctx):
             ctx.states += 1
             ctx.nontrivial += nt
             ctx.outcomes[label] += 1
+            ctx.extra["tree_cases"] += 1
             if nt and len(ctx.samples) < 1 and n >= 2:
                 ctx.sample({"class": c["name"], "t": t_list, "m": env.tree_to_list(complete(c, t_list)[1])})
     rules_unchanged(c, ctx.violation, block)
@@ -558,8 +574,7 @@ def check_pair(c, t_list, u_list, v):
                   % (d, list(place), in_diff, in_patch, old_l, new_l, cmds))
         if situation == "same-context":
             v({"kind": "patch-default-alone", "class": name, "situation": situation,
-               "rule": rule_label(rule.path) if rule else d,
-               "seen_in": "+".join(x for x, y in (("diff", in_diff), ("patch", in_patch)) if y)}, case, detail)
+               "rule": rule_label(rule.path) if rule else d}, case, detail)
         elif JUDGE_CONTEXT_DEPENDENT:
             v({"kind": "patch-default-alone", "class": name, "situation": situation}, case, detail)
     label = "patch:%s%s" % ("empty" if not cmds else "cmds=%d" % min(len(cmds), 4),
@@ -594,6 +609,22 @@ def run_pair(block, ctx):
                 ctx.sample({"class": c["name"], "t": t_list, "u": u_list, "outcome": label})
 
 
+def finish(merged, tier):
+    """the sorted-sibling enumeration is complete: case count == independent recurrence"""
+    if merged["capped"]:
+        return
+    b = tier_bounds(tier)
+    rep = set(reps())
+    exp = sum(count_sforests(cls(name)["rows"], n) for name in CLS
+              for n in range(0, (b["N"] if name in rep else b["NM"]) + 1))
+    got = merged["extra"].get("tree_cases", 0)
+    merged["extra"]["tree_cases_expected_by_recurrence"] = exp
+    if got != exp:
+        sig = {"kind": "harness-enumeration-incomplete", "part": "tree"}
+        merged["viol"]["enum"] = {"sig": sig, "count": 1, "cases": [{"case": {"part": "classes", "cls": "huawei-ne"},
+                                                                     "detail": "enumerated %d, recurrence %d" % (got, exp)}]}
+
+
 def run_block(block, ctx):
     {"classes": run_classes, "tree": run_tree, "ordered": run_ordered, "pair": run_pair}[block["part"]](block, ctx)
 
@@ -604,10 +635,8 @@ def replay(case):
     def v(sig, _case, detail=""):
         out.append((sig, detail))
     if "block" in case:
-        class C:
-            pass
-        from mc.core import Ctx
         import time
+        from mc.core import Ctx
         ctx = Ctx(time.time() + 3600, "quick", 0)
         run_block(case["block"], ctx)
         return [(e["sig"], e["cases"][0]["detail"]) for e in ctx.result()["viol"].values()]
